@@ -1,1 +1,192 @@
-def main : IO Unit := pure ()
+import Nsl.Driver.Sexp
+import Nsl.Driver.Codec
+import Nsl.Model.Leb
+import Nsl.Model.SrcMap
+import Nsl.Model.Prec
+import Nsl.Model.Types
+import Nsl.Model.Overload
+import Nsl.Model.Flow
+import Nsl.Model.Static
+import Nsl.Model.WF
+import Nsl.Model.Lower
+import Nsl.Model.CoreSem
+import Nsl.Gen.Grammar
+/-!
+# Line-protocol driver: one request per line on stdin, one answer per line on stdout.
+Executes the *model* definitions; the Python harness compares the answers with the real nsl.
+-/
+open Nsl
+
+structure DState where
+  mod : Option Core.Module := none
+  prog : Option Program := none     -- lowered from `mod`
+  ir : Option Program := none       -- loaded from an implementation dump
+
+def hexToBytes (s : String) : List Nat :=
+  let cs := s.toList
+  let rec go : List Char → List Nat
+    | a :: b :: rest => (hv a * 16 + hv b) :: go rest
+    | _ => []
+  go cs
+where hv (c : Char) : Nat :=
+  if c.isDigit then c.toNat - '0'.toNat
+  else if 'a' ≤ c ∧ c ≤ 'f' then c.toNat - 'a'.toNat + 10
+  else if 'A' ≤ c ∧ c ≤ 'F' then c.toNat - 'A'.toNat + 10 else 0
+
+def cpsToChars (s : String) : List Char :=
+  if s == "-" then [] else (s.splitOn ",").filterMap (fun t => t.toNat?.map Char.ofNat)
+
+/-! ### C08 -/
+
+def levelOfTok (tok : String) : Nat :=
+  match Gen.Grammar.precedence.findIdx? (fun p => p.2.contains tok) with
+  | some i => i + 1
+  | none => 0
+
+def tokOfSpelling (sp : String) : Option String :=
+  (Gen.Grammar.spelling.find? (fun p => p.2 == sp && levelOfTok p.1 != 0)).map (·.1)
+
+def lvlOfSpelling (sp : String) : Nat := (tokOfSpelling sp).map levelOfTok |>.getD 0
+
+partial def parseChain : List String → Option (Prec.Chain String String × List String)
+  | [] => none
+  | "(" :: rest =>
+    match parseChain rest with
+    | some (c, ")" :: rest') => chainTail (.group c) rest'
+    | _ => none
+  | t :: rest => chainTail (.atom t) rest
+where chainTail (x : Prec.Operand String String) : List String → Option (Prec.Chain String String × List String)
+  | [] => some (.one x, [])
+  | ")" :: rest => some (.one x, ")" :: rest)
+  | o :: rest =>
+    if lvlOfSpelling o == 0 then none
+    else match parseChain rest with
+      | some (c, rest') => some (.cons x o c, rest')
+      | none => none
+
+partial def treeStr : Prec.Tree String String → String
+  | .leaf a => a
+  | .node o l r => "(" ++ o ++ " " ++ treeStr l ++ " " ++ treeStr r ++ ")"
+
+def doPrec (toks : List String) : String :=
+  match parseChain toks with
+  | some (c, []) => treeStr (Prec.parseFull lvlOfSpelling c)
+  | _ => "error"
+
+/-! ### C10 -/
+
+def parseSig (s : String) : Option Overload.Sig :=
+  match s.splitOn ":" |>.length, s.splitOn "/" with
+  | _, [name, ret, params] => do
+    let ps ← if params == "-" then some [] else (params.splitOn ",").mapM Overload.parseTy?
+    some { name := name, ret := ← ret.toNat?, params := ps }
+  | _, _ => none
+
+/-! ### programs -/
+
+def resToSexp : VM.Res → Sexp
+  | .done v g as => .list [.atom "ok", Codec.encVal v, Codec.encGlobals g, .list (.atom "args" :: as.map Codec.encVal)]
+  | .fail e => Codec.encErr e
+
+def coutToSexp : CoreSem.COut → Sexp
+  | .done v g as => .list [.atom "ok", Codec.encVal v, Codec.encGlobals g, .list (.atom "args" :: as.map Codec.encVal)]
+  | .fail e => Codec.encErr e
+
+def decArgs : Sexp → Option (List Val)
+  | .list (.atom "args" :: vs) => vs.mapM Codec.decVal
+  | _ => none
+
+def restOfLine (line : String) (n : Nat) : String :=
+  " ".intercalate ((line.splitOn " ").drop n)
+
+def handle (st : DState) (line : String) : DState × String :=
+  let toks := (line.splitOn " ").filter (· != "")
+  match toks with
+  | ["leb", "p", z] => (st, match z.toInt? with | some v => Leb.hex (Leb.packInteger v) | none => "error")
+  | ["leb", "u", n] => (st, match n.toNat? with | some v => Leb.hex (Leb.encU v) | none => "error")
+  | ["leb", "s", z] => (st, match z.toInt? with | some v => Leb.hex (Leb.encS v) | none => "error")
+  | ["leb", "du", h] => (st, match Leb.decU (hexToBytes h) with
+      | some (v, rest) => s!"{v} {rest.length}" | none => "none")
+  | ["leb", "ds", h] => (st, match Leb.decS (hexToBytes h) with
+      | some (v, rest) => s!"{v} {rest.length}" | none => "none")
+  | ["leb", "name", cps] => (st, Leb.hex (Leb.writeStringPy (String.ofList (cpsToChars cps))))
+  | ["leb", "section", id, h] => (st, match id.toNat? with
+      | some i => Leb.hex (Leb.sectionBytesPy i (hexToBytes h)) | none => "error")
+  | ["leb", "unsection", h] => (st, match Leb.unsection (hexToBytes h) with
+      | some (id, p, rest) => s!"{id} {p.length} {rest.length}" | none => "none")
+  | ["loc", "fmt", cps, b, e] => (st, match b.toNat?, e.toNat? with
+      | some b, some e => SrcMap.formatStr (cpsToChars cps) ⟨b, e⟩ | _, _ => "error")
+  | ["loc", "line", cps, o] => (st, match o.toNat? with
+      | some o => toString (SrcMap.lineFromOffset (cpsToChars cps) o) | none => "error")
+  | ["loc", "offsets", cps] => (st, toString (SrcMap.lineOffsets (cpsToChars cps)))
+  | "loc" :: "merge" :: nums =>
+    let ns := nums.filterMap String.toNat?
+    let rec spans : List Nat → List SrcMap.Span
+      | b :: e :: rest => ⟨b, e⟩ :: spans rest
+      | _ => []
+    (st, match spans ns with
+      | f :: rest => let m := SrcMap.merge f rest; s!"{m.b} {m.e}"
+      | [] => "error")
+  | "prec" :: rest => (st, doPrec rest)
+  | ["types", o, l, r] => (st, match Types.BOp.ofStr? o, Types.parseTy? l, Types.parseTy? r with
+      | some o, some l, some r => Types.resultStr (Types.resolveBinary o l r)
+      | _, _, _ => "error")
+  | ["typespec", o, l, r] => (st, match Types.BOp.ofStr? o, Types.parseTy? l, Types.parseTy? r with
+      | some o, some l, some r => Types.resultStr (Types.Spec.binary o l r)
+      | _, _, _ => "error")
+  | "ovl" :: name :: args :: sigs =>
+    (st, match (if args == "-" then some [] else (args.splitOn ",").mapM Overload.parseTy?), sigs.mapM parseSig with
+      | some as, some ss => Overload.resultStr (Overload.findFunction [ss] name as) ++ " " ++
+                            Overload.resultStr (Overload.Spec.best ss name as)
+      | _, _ => "error")
+  | "flow" :: _ => (st, Flow.run (restOfLine line 1))
+  | "static" :: _ => (st, Static.run (restOfLine line 1))
+  | "mod" :: _ =>
+    match (Sexp.parse (restOfLine line 1)).bind Codec.decModule with
+    | some m => ({ st with mod := some m, prog := some (Lower.lowerModule m) }, "ok")
+    | none => (st, "error")
+  | ["lower"] => (st, match st.prog with
+      | some p => (Codec.encProgram p).toStr | none => "error")
+  | "irprog" :: _ =>
+    match (Sexp.parse (restOfLine line 1)).bind Codec.decProgram with
+    | some p => ({ st with ir := some p }, "ok")
+    | none => (st, "error")
+  | ["wf"] => (st, match st.ir with
+      | some p => " | ".intercalate (p.funcs.map fun f => f.name ++ ": " ++ WF.wfReport f p)
+      | none => "error")
+  | ["wfmodel"] => (st, match st.prog with
+      | some p => " | ".intercalate (p.funcs.map fun f => f.name ++ ": " ++ WF.wfReport f p)
+      | none => "error")
+  | kind :: fuel :: fn :: _ =>
+    if kind == "run" || kind == "ref" || kind == "irrun" then
+      match fuel.toNat?, Sexp.parse ("(" ++ restOfLine line 3 ++ ")") with
+      | some fuel, some (.list [as, gs]) =>
+        match decArgs as, Codec.decGlobals gs with
+        | some as, some g =>
+          if kind == "run" then
+            (st, match st.prog with
+              | some p => (resToSexp (VM.invoke p fuel fn as g)).toStr | none => "error-no-module")
+          else if kind == "irrun" then
+            (st, match st.ir with
+              | some p => (resToSexp (VM.invoke p fuel fn as g)).toStr | none => "error-no-ir")
+          else
+            (st, match st.mod with
+              | some m => (coutToSexp (CoreSem.invoke m fuel fn as g)).toStr | none => "error-no-module")
+        | _, _ => (st, "error-args")
+      | _, _ => (st, "error-syntax")
+    else (st, "error-unknown-command")
+  | _ => (st, "error-unknown-command")
+
+partial def loop (h : IO.FS.Stream) (out : IO.FS.Stream) (st : DState) : IO Unit := do
+  let line ← h.getLine
+  if line.isEmpty then return ()
+  let line := (line.dropRightWhile (fun c => c == '\n' || c == '\r'))
+  let (st', ans) := handle st line
+  out.putStrLn ans
+  out.flush
+  loop h out st'
+
+def main : IO Unit := do
+  let stdin ← IO.getStdin
+  let stdout ← IO.getStdout
+  loop stdin stdout {}
